@@ -98,7 +98,8 @@ Record gs_skel := {
   k_skip_valueerror : bool;          (* except ValueError: ... continue *)
   k_grid_product : bool;             (* for candidate in combine( *grids): dict(zip(params, candidate)) *)
   k_cartesian_lists : bool;          (* cartesian = not isinstance(grid, np.ndarray) or grid.ndim != 2; if cartesian: grid = combine( *grid) *)
-  k_keep_copies_best : bool;         (* if keep_best: self.set_params(deep=True, force=True, <kwargs of best_model.get_params(deep=True)>) *)
+  k_keep_copies_best : bool;         (* if keep_best: self.set_params(deep=True, force=True, <kwargs of deepcopy(best_model.get_params(deep=True))>) *)
+  k_keep_deepcopies : bool;          (* ... and those kwargs are a deepcopy: self shares no object with the winner afterwards *)
   k_return_scores_zip : bool;        (* if return_scores: return OrderedDict(zip(models, scores)) else: return self *)
   k_effects : list effect
 }.
@@ -172,6 +173,12 @@ Definition g_finish (k : gs_skel) (keep_best return_scores : bool) (st : gstate)
       then (None, RetCrash)                              (* best_model is None (all scores +inf): AttributeError *)
       else (kept, if return_scores then RetScores (models st) else RetSelf)
   end.
+
+(* does self share mutable objects (coef_, statistics_, terms) with a model of the returned dict after the call?
+   only if the winner is a candidate and its attributes were handed over without a deepcopy *)
+Definition g_aliases (k : gs_skel) (keep_best : bool) (st : gstate) : bool :=
+  keep_best && k_keep_copies_best k && negb (k_keep_deepcopies k) &&
+  match best_model st with Some (MCand _) => true | _ => false end.
 
 (* ---------- purity of the call for a fitted model with keep_best = False ---------- *)
 Definition pure_on_self (what : string) : bool :=
